@@ -337,7 +337,9 @@ def contains_any(t: Any) -> bool:
                 return False
 
             def visit_tuple_type(self, t: Any) -> bool:
-                return self.query_types([*t.items, t.partial_fallback])
+                # the partial fallback of a plain tuple is tuple[Any, ...] by construction: not "contained"
+                fb = [] if t.partial_fallback.type.fullname == "builtins.tuple" else [t.partial_fallback]
+                return self.query_types([*t.items, *fb])
 
             def visit_typeddict_type(self, t: Any) -> bool:
                 return self.query_types(list(t.items.values()))
@@ -347,14 +349,30 @@ def contains_any(t: Any) -> bool:
 
 
 def components(t: Any) -> list[Any]:
-    """Immediate component types (for witness shrinking)."""
+    """Immediate component types (for witness shrinking). Unpack[...] is not a type of its own: it is replaced by
+    the item type of the variadic part, or dropped."""
+    from mypy import types as T
+    out = []
+    for c in _components(t):
+        if isinstance(c, T.UnpackType):
+            inner = T.get_proper_type(c.type)
+            if isinstance(inner, T.Instance) and inner.type.fullname == "builtins.tuple" and inner.args:
+                out.append(inner.args[0])
+            continue
+        if isinstance(c, (T.TypeVarTupleType, T.ParamSpecType, T.Parameters)):
+            continue
+        out.append(c)
+    return out
+
+
+def _components(t: Any) -> list[Any]:
     from mypy import types as T
     if isinstance(t, T.TypeAliasType):
         return [T.get_proper_type(t)]
     if isinstance(t, T.Instance):
         return list(t.args) + ([t.last_known_value] if t.last_known_value is not None else [])
     if isinstance(t, T.TupleType):
-        return list(t.items) + [t.partial_fallback]
+        return list(t.items) + ([] if t.partial_fallback.type.fullname == "builtins.tuple" else [t.partial_fallback])
     if isinstance(t, T.UnpackType):
         return [t.type]
     if isinstance(t, T.CallableType):
@@ -396,6 +414,24 @@ PSUB_FLAGS: list[dict[str, bool]] = [{"ignore_promotions": True}, {"erase_instan
 
 def _h(x: Any) -> str:
     return hashlib.sha1(str(x).encode("utf-8", "replace")).hexdigest()[:8]
+
+
+# names of the answer components of one ordered pair, in the order they appear in the answer string
+COMPONENTS = (["is_subtype", "is_proper_subtype"]
+              + ["is_subtype[" + ",".join(f) + "]" for f in SUB_FLAGS]
+              + ["is_proper_subtype[" + ",".join(f) + "]" for f in PSUB_FLAGS]
+              + ["join_types", "meet_types", "make_simplified_union"])
+
+
+def diff_components(a: str, b: str, flags: bool = True) -> list[str]:
+    """Which answers differ between two answer strings of the same pair."""
+    ba, *ha = a.split(":")
+    bb, *hb = b.split(":")
+    names = COMPONENTS if flags else COMPONENTS[:2] + COMPONENTS[-3:]
+    nb = len(names) - 3
+    out = [names[k] for k in range(min(len(ba), len(bb), nb)) if ba[k] != bb[k]]
+    out += [names[nb + k] for k in range(3) if k < len(ha) and k < len(hb) and ha[k] != hb[k]]
+    return out or ["?"]
 
 
 def _stack_state() -> str | None:
@@ -440,65 +476,106 @@ def _eval_pair(s: Any, t: Any, cold: bool, flags: bool, full: bool = False) -> t
         reset()
     un, f3 = _call_laws(_M.union, [s, t])
     for law, res in f1 + f2 + f3:
-        viol.append({"law": law, "result": str(res), "result_kind": kind(res)})
+        viol.append({"law": law, "result": str(res)})
     st = _stack_state()
     if st:
         viol.append({"law": "assumption-stack-not-empty", "result": st})
         del _M.type_state._assuming[:], _M.type_state._assuming_proper[:], _M.type_state.inferring[:]
-    detail = {}
+    det = {}
     if full:
-        detail = {"sub": sub, "psub": psub, "bits": "".join(bits), "join": str(j), "meet": str(m), "union": str(un)}
-    return "".join(bits) + ":" + _h(j) + _h(m) + _h(un), viol, detail
+        det = {c: (b == "1") for c, b in zip(COMPONENTS if flags else COMPONENTS[:2], bits)}
+        det.update({"join_types": str(j), "meet_types": str(m), "make_simplified_union": str(un)})
+    return "".join(bits) + ":" + _h(j) + ":" + _h(m) + ":" + _h(un), viol, det
+
+
+class _Findings:
+    """Violations of one task, classified where they are observed: key -> count + a few full witnesses."""
+
+    def __init__(self, u: Universe, per_key: int = 3) -> None:
+        self.u = u
+        self.per_key = per_key
+        self.by_key: dict[str, dict[str, Any]] = {}
+        self.memo: dict[tuple[Any, ...], str] = {}
+
+    def add(self, law: str, ids: list[int], phase: str, observed: Any = None) -> None:
+        u = self.u
+        mk = (law, *ids)
+        if mk in self.memo:
+            self.by_key[self.memo[mk]]["n"] += 1
+            return
+        ts = [u.types[i] for i in ids]
+        if law == "assumption-stack-not-empty":
+            w: dict[str, Any] = {"law": law, "ids": ids, "names": [u.names[i] for i in ids], "types": [str(t) for t in ts],
+                                 "kinds": [kind(t) for t in ts], "observed": observed}
+            key = "assumption-stack-not-empty:" + "x".join(kfold(kind(t)) for t in ts)
+        else:
+            w = explain_types(law, ts, ids=ids, names=[u.names[i] for i in ids])
+            if w["fails_in_isolation"]:
+                key = w["key"]
+            else:
+                # the law failed in the observed cache state but holds with empty caches
+                key = f"cache-dependence:law-outcome({family(law)}):" + "x".join(kfold(kind(t)) for t in ts)
+                w["observed_in_sequence"] = observed
+        w["phase"] = phase
+        self.memo[mk] = key
+        e = self.by_key.setdefault(key, {"n": 0, "examples": []})
+        e["n"] += 1
+        if len(e["examples"]) < self.per_key:
+            e["examples"].append(w)
+
+    def out(self) -> dict[str, Any]:
+        return self.by_key
 
 
 def eval_pairs(src_dir: str, pairs: list[list[int]] | None = None, rows: list[int] | None = None,
-               space: list[int] | None = None, order_seed: int = 0, flags: bool = True, cold: bool = True,
-               refl: bool = False) -> dict[str, Any]:
-    """Evaluate every law on the given ordered pairs (explicit list, or rows x space).
+               cols: list[int] | None = None, by_cols: bool = False, order_seed: int = 0, flags: bool = True,
+               cold: bool = True, refl: bool = False) -> dict[str, Any]:
+    """Evaluate every law on the given ordered pairs (explicit list, or rows x cols; by_cols transposes the walk).
 
-    Pass 1 ("warm"): queries in the order given by order_seed; caches are emptied once at the start of the task
-    and then left as the query sequence leaves them.  Pass 2 ("cold", optional): caches emptied before each query.
-    Returns compact answer strings of the warm pass (compared by the parent with the same pairs evaluated in another
-    task in another order), the warm/cold differences and the law violations."""
+    Pass 1 ("warm"): queries in the order given by order_seed; caches are emptied once at the start of the task and
+    then left as the query sequence leaves them.  Pass 2 ("cold", optional): caches emptied before every query.
+    Returns the compact warm answers aligned with `pairs` (the parent compares them with the same pairs evaluated by
+    another task in another order), the warm/cold differences, and the classified law violations."""
     u = _load(src_dir)
     if pairs is None:
         assert rows is not None
-        cols = space if space is not None else list(range(u.n1))
-        pairs = [[i, j] for i in rows for j in cols]
-    pairs = [p for p in pairs if u.types[p[0]] is not None and u.types[p[1]] is not None]
-    order = list(range(len(pairs)))
-    random.Random(order_seed).shuffle(order) if order_seed else None
+        cs = cols if cols is not None else list(range(u.n1))
+        pairs = [[j, i] for i in rows for j in cs] if by_cols else [[i, j] for i in rows for j in cs]
+    live = [k for k, p in enumerate(pairs) if u.types[p[0]] is not None and u.types[p[1]] is not None]
+    order = list(live)
+    if order_seed:
+        random.Random(order_seed).shuffle(order)
     _M.type_state.reset_all_subtype_caches()
     n0, q0 = _M.n_oracle, _M.n_queries
-    ans: dict[str, str] = {}
-    viols: list[dict[str, Any]] = []
+    ans: list[str | None] = [None] * len(pairs)
+    fnd = _Findings(u)
     seen_v: set[tuple[Any, ...]] = set()
     for k in order:
         i, j = pairs[k]
         a, vs, _ = _eval_pair(u.types[i], u.types[j], cold=False, flags=flags)
-        ans[f"{i},{j}"] = a
+        ans[k] = a
         for v in vs:
-            v.update(i=i, j=j, phase="warm")
-            viols.append(v)
+            fnd.add(v["law"], [i, j], "warm", v.get("result"))
             seen_v.add((v["law"], i, j))
         if refl and i == j:
             _M.n_oracle += 1
             if not a.startswith("1"):
-                viols.append({"law": "reflexivity", "i": i, "j": j, "phase": "warm"})
+                fnd.add("reflexivity", [i], "warm")
     cachediff: list[dict[str, Any]] = []
     if cold:
         for k in order:
             i, j = pairs[k]
             a, vs, _ = _eval_pair(u.types[i], u.types[j], cold=True, flags=flags)
             _M.n_oracle += 1
-            if a != ans[f"{i},{j}"]:
-                cachediff.append({"i": i, "j": j, "warm": ans[f"{i},{j}"], "cold": a})
+            if a != ans[k]:
+                cachediff.append({"pair": [i, j], "warm": ans[k], "cold": a, "components": diff_components(ans[k] or "", a, flags),
+                                  "kinds": [kind(u.types[i]), kind(u.types[j])]})
             for v in vs:
                 if (v["law"], i, j) not in seen_v:
-                    v.update(i=i, j=j, phase="cold")
-                    viols.append(v)
-    return {"n_pairs": len(pairs), "oracle": _M.n_oracle - n0, "queries": _M.n_queries - q0, "ans": ans,
-            "viol": viols, "cachediff": cachediff}
+                    fnd.add(v["law"], [i, j], "cold", v.get("result"))
+    return {"n_pairs": len(live), "oracle": _M.n_oracle - n0, "queries": _M.n_queries - q0, "ans": ans,
+            "pairs": pairs if rows is not None else None, "findings": fnd.out(), "cachediff": cachediff[:50],
+            "n_cachediff": len(cachediff)}
 
 
 def sub_rows(src_dir: str, rows: list[int], space: list[int]) -> dict[str, Any]:
@@ -522,14 +599,14 @@ def sub_rows(src_dir: str, rows: list[int], space: list[int]) -> dict[str, Any]:
 
 def eval_triples(src_dir: str, triples: list[list[int]]) -> dict[str, Any]:
     """make_simplified_union on every permutation of each triple of items: each result must be equivalent
-    (mutual is_subtype) to the plain UnionType(items).  Also the transitivity instance of the triple itself."""
+    (mutual is_subtype) to the plain UnionType(items)."""
     import itertools
     u = _load(src_dir)
     _M.type_state.reset_all_subtype_caches()
     n0 = _M.n_oracle
-    viols: list[dict[str, Any]] = []
+    fnd = _Findings(u)
     n = 0
-    distinct_results = 0
+    order_sensitive = 0
     for tr in triples:
         ts = [u.types[i] for i in tr]
         if any(t is None for t in ts):
@@ -541,14 +618,43 @@ def eval_triples(src_dir: str, triples: list[list[int]]) -> dict[str, Any]:
             res, failed = _call_laws(_M.union, items)
             results.add(str(res))
             for law, r in failed:
-                viols.append({"law": law, "ids": [tr[p] for p in perm], "result": str(r), "result_kind": kind(r)})
+                fnd.add(law, [tr[p] for p in perm], "warm", str(r))
         if len(results) > 1:
-            distinct_results += 1
+            order_sensitive += 1
         st = _stack_state()
         if st:
-            viols.append({"law": "assumption-stack-not-empty", "ids": tr, "result": st})
+            fnd.add("assumption-stack-not-empty", list(tr), "warm", st)
             del _M.type_state._assuming[:], _M.type_state._assuming_proper[:], _M.type_state.inferring[:]
-    return {"n": n, "oracle": _M.n_oracle - n0, "viol": viols, "order_sensitive_repr": distinct_results}
+    return {"n": n, "oracle": _M.n_oracle - n0, "findings": fnd.out(), "order_sensitive_repr": order_sensitive}
+
+
+def show_pairs(src_dir: str, pairs: list[list[int]]) -> list[dict[str, Any]]:
+    """Written-out answers of a few pairs (evidence samples)."""
+    u = _load(src_dir)
+    out = []
+    for i, j in pairs:
+        if u.types[i] is None or u.types[j] is None:
+            continue
+        _M.type_state.reset_all_subtype_caches()
+        _, vs, d = _eval_pair(u.types[i], u.types[j], cold=False, flags=False, full=True)
+        out.append({"s": str(u.types[i]), "t": str(u.types[j]), **d, "laws_failed": [v["law"] for v in vs]})
+    return out
+
+
+def explain_many(src_dir: str, law: str, cases: list[list[int]]) -> dict[str, Any]:
+    """Classify violations found by the parent over recorded answers (transitivity over the subtype matrix)."""
+    u = _load(src_dir)
+    fnd = _Findings(u)
+    not_confirmed = 0
+    for ids in cases:
+        before = sum(e["n"] for e in fnd.by_key.values())
+        w = _check_law(law, [u.types[i] for i in ids])
+        if w is None:
+            not_confirmed += 1
+            continue
+        fnd.add(law, list(ids), "recorded")
+        assert sum(e["n"] for e in fnd.by_key.values()) == before + 1
+    return {"findings": fnd.out(), "not_confirmed": not_confirmed}
 
 
 # --- witnesses: re-evaluate one case in isolation, shrink it, classify it -------------------------------------
@@ -588,57 +694,188 @@ def _check_law(law: str, ts: list[Any]) -> dict[str, Any] | None:
     return None
 
 
-def _shrink(law: str, ts: list[Any], budget: int = 400) -> list[Any]:
-    """Greedy structural shrinking: replace one type by one of its components while the same law still fails."""
-    cur = list(ts)
+FAMILIES = {"join-ub": ["join-ub-left", "join-ub-right"], "meet-lb": ["meet-lb-left", "meet-lb-right"],
+            "union-equiv": ["union-simplified-le-plain", "union-plain-le-simplified"]}
+
+
+def family(law: str) -> str:
+    for fam, laws in FAMILIES.items():
+        if law in laws:
+            return fam
+    return law
+
+
+def _check_family(fam: str, ts: list[Any]) -> tuple[str, list[Any], dict[str, Any]] | None:
+    """First failing (law, ordered types, observation) among the laws of a family in both argument orders."""
+    laws = FAMILIES.get(fam, [fam])
+    orders = [list(ts)]
+    if fam in FAMILIES and len(ts) == 2 and ts[0] is not ts[1]:
+        orders.append([ts[1], ts[0]])
+    for o in orders:
+        for law in laws:
+            try:
+                w = _check_law(law, o)
+            except Exception:
+                continue
+            if w is not None:
+                return law, o, w
+    return None
+
+
+def _shrink(law: str, ts: list[Any], budget: int = 300) -> tuple[str, list[Any]]:
+    """Greedy structural shrinking: replace one type by one of its components (or both at once) while some law of
+    the same family still fails (the failing side/order may flip on the way down)."""
+    fam = family(law)
+    cur_law, cur = law, list(ts)
+    r0 = _check_family(fam, cur)
+    if r0 is not None:
+        cur_law, cur = r0[0], r0[1]
+    dual = {"join-ub": "meet-lb", "meet-lb": "join-ub"}
     n = 0
     progress = True
     while progress and n < budget:
         progress = False
+        cands: list[list[Any]] = []
         for pos in range(len(cur)):
             for c in components(cur[pos]):
-                n += 1
                 cand = list(cur)
                 cand[pos] = c
-                try:
-                    if _check_law(law, cand) is not None:
-                        cur = cand
-                        progress = True
-                        break
-                except Exception:
-                    continue
-            if progress:
+                cands.append(cand)
+        if len(cur) == 2:
+            cands += [[c0, c1] for c0 in components(cur[0]) for c1 in components(cur[1])]
+        for cand in cands:
+            n += 1
+            r = _check_family(fam, cand)
+            if r is None and fam in dual and len(cand) == 2:
+                # a join of composites is built from meets of components (contravariant positions) and vice versa
+                r = _check_family(dual[fam], cand)
+            if r is not None:
+                cur_law, cur = r[0], r[1]
+                fam = family(cur_law)
+                progress = True
                 break
-        if not progress and len(cur) == 2:
-            # both sides at once (e.g. list[X] vs list[Y] -> X vs Y)
-            for c0 in components(cur[0]):
-                for c1 in components(cur[1]):
-                    n += 1
-                    try:
-                        if _check_law(law, [c0, c1]) is not None:
-                            cur = [c0, c1]
-                            progress = True
-                            break
-                    except Exception:
-                        continue
-                if progress:
-                    break
-    return cur
+    return cur_law, cur
+
+
+def kfold(k: str) -> str:
+    """Kinds as used in mechanism keys: the callable refinements are folded (they stay apart in coverage cells)."""
+    return "Callable" if k in ("Callable...", "CallableP", "GenericCallable") else k
+
+
+_NEVERQ: Any = None
+
+
+def _contains_never(t: Any) -> bool:
+    global _NEVERQ
+    if _NEVERQ is None:
+        from mypy.type_visitor import ANY_STRATEGY, BoolTypeQuery
+
+        class Q(BoolTypeQuery):
+            def __init__(self) -> None:
+                super().__init__(ANY_STRATEGY)
+
+            def visit_uninhabited_type(self, t: Any) -> bool:
+                return True
+
+            def visit_type_var(self, t: Any) -> bool:
+                return False
+        _NEVERQ = Q
+    return bool(t.accept(_NEVERQ()))
+
+
+def _callable_shape(c: Any) -> list[tuple[str, str | None]]:
+    return [(k.name, None if k.is_star() else n) for k, n in zip(c.arg_kinds, c.arg_names)]
+
+
+def detail(law: str, ts: list[Any]) -> str:
+    """Sub-mechanism of a (shrunk) witness, derived from the inputs and the real function's result only."""
+    from mypy import types as T
+    ps = [T.get_proper_type(t) for t in ts]
+    fam = family(law)
+    bits: list[str] = []
+    if fam in ("join-ub", "meet-lb") and len(ps) == 2:
+        from mypy.join import join_types
+        from mypy.meet import meet_types
+        res = T.get_proper_type(join_types(ts[0], ts[1]) if fam == "join-ub" else meet_types(ts[0], ts[1]))
+        rk = kind(res)
+        fbs = [getattr(p, "fallback", None) for p in ps if isinstance(p, T.FunctionLike)]
+        if isinstance(res, T.Instance) and any(fb is not None and (res == fb or res.type.has_base(fb.type.fullname)
+                                                                   or fb.type.has_base(res.type.fullname)) for fb in fbs):
+            rk = "fallback-instance"
+        elif isinstance(res, T.UninhabitedType):
+            rk = "Never"
+        bits.append("->" + rk)
+        if all(isinstance(p, T.CallableType) for p in ps) and isinstance(res, T.CallableType):
+            a, b = _callable_shape(ps[0]), _callable_shape(ps[1])
+            if [k for k, _ in a] != [k for k, _ in b]:
+                bits.append("arg-kinds-differ")
+            elif [n for _, n in a] != [n for _, n in b]:
+                bits.append("arg-names-differ")
+        # which side(s) the result fails against, over both laws and both argument orders
+        against: set[str] = set()
+        for o in ([ts[0], ts[1]], [ts[1], ts[0]]):
+            for which, law_name in enumerate(FAMILIES[fam]):
+                try:
+                    if _check_law(law_name, o) is not None:
+                        against.add(kfold(kind(o[which])))
+                except Exception:
+                    pass
+        bits.append("not-" + ("ge" if fam == "join-ub" else "le") + "(" + ",".join(sorted(against)) + ")")
+    elif fam == "union-equiv":
+        from mypy.typeops import make_simplified_union
+        res = make_simplified_union(list(ts))
+        if law == "union-plain-le-simplified":
+            # which items of the plain union are not covered by the simplified result
+            lost = sorted({kfold(kind(t)) for t in ts if not _M.sub(t, res)})
+            bits.append("lost=" + ",".join(lost) + ":result=" + kfold(kind(res)))
+        else:
+            bits.append("result=" + kfold(kind(res)) + ":items=" + ",".join(sorted({kfold(kind(t)) for t in ts})))
+    return ":".join(bits)
+
+
+def make_key(law: str, ts: list[Any], det: str) -> str:
+    """Mechanism key = law family x kinds of the SHRUNK witness x sub-mechanism (never ids, names or hashes)."""
+    from mypy import types as T
+    fam = family(law)
+    ks = [kfold(kind(t)) for t in ts]
+    if "arg-kinds-differ" in det or "arg-names-differ" in det:
+        # a callable-shape mechanism: whether a side is a class's type object is incidental
+        ks = ["Callable" if isinstance(T.get_proper_type(t), T.CallableType) else k for k, t in zip(ks, ts)]
+        det = det.replace("TypeObj", "Callable").replace("(Callable,Callable)", "(Callable)")
+    if fam == "transitivity":
+        return "transitivity:" + "<=".join(ks)
+    if fam in FAMILIES:
+        ks = sorted(ks)
+    tail = (det if det.startswith("->") else ":" + det) if det else ""
+    if fam == "union-equiv":
+        which = "simplified-not-le-plain" if law == "union-simplified-le-plain" else "plain-not-le-simplified"
+        return f"union-equiv:{which}{tail}"
+    return f"{fam}:{'x'.join(ks)}{tail}"
 
 
 def explain(src_dir: str, law: str, ids: list[int], shrink: bool = True) -> dict[str, Any]:
     """Self-contained witness for one (law, type ids): fresh evaluation, shrunk types, kinds."""
     u = _load(src_dir)
     ts = [u.types[i] for i in ids]
+    return explain_types(law, ts, ids=ids, names=[u.names[i] for i in ids], shrink=shrink)
+
+
+def explain_types(law: str, ts: list[Any], ids: list[int] | None = None, names: list[str] | None = None,
+                  shrink: bool = True) -> dict[str, Any]:
     w = _check_law(law, ts)
-    out: dict[str, Any] = {"law": law, "ids": ids, "names": [u.names[i] for i in ids], "types": [str(t) for t in ts],
+    out: dict[str, Any] = {"law": law, "ids": ids, "names": names, "types": [str(t) for t in ts],
                            "kinds": [kind(t) for t in ts], "fails_in_isolation": w is not None, "observed": w}
     if w is not None and shrink:
-        small = _shrink(law, ts)
+        start = list(ts)
+        if family(law) in FAMILIES and len(ts) == 2 and str(ts[1]) < str(ts[0]):
+            start = [ts[1], ts[0]]   # canonical start: (s,t) and (t,s) shrink to the same witness
+        mlaw, small = _shrink(law, start)
+        out["min_law"] = mlaw
         out["min_types"] = [str(t) for t in small]
         out["min_kinds"] = [kind(t) for t in small]
-        out["min_observed"] = _check_law(law, small)
-        out["min_any"] = [contains_any(t) for t in small]
+        out["min_observed"] = _check_law(mlaw, small)
+        out["min_detail"] = detail(mlaw, small)
+        out["key"] = make_key(mlaw, small, out["min_detail"])
     return out
 
 
